@@ -138,6 +138,16 @@ func CompareSuccess(sc *Scenario, o *ParseObs, checkRest bool) (string, string) 
 			}
 		}
 	}
+	for gi, g := range d.Grps {
+		for ni, nf := range g.NoFlag {
+			if !nf.Val.IsValid() {
+				continue
+			}
+			if got := o.Snap[fmt.Sprintf("noflag%d.%d", gi, ni)]; got != `("nf-canary",41)` {
+				return "no-flag-field", fmt.Sprintf("fields inside the no-flag struct %s changed to %s", nf.Field, got)
+			}
+		}
+	}
 	for _, c := range d.Cmds {
 		if c.Pos == nil {
 			continue
